@@ -315,17 +315,26 @@ def run(tier, seed, only=None):
     if not ck.step_sanity():
         return ck.finish()
     ck.step_prove([], "Props/C12.v", extra=["Model/C12Phases.vo", "Model/C12Map.vo"])
-    payload = {"seed": seed, "n": 240 if tier == "quick" else 3000, "exhaustive": 1 if tier == "quick" else 2}
+    payload = {"seed": seed, "n": 240 if tier == "quick" else 9000, "exhaustive": 1 if tier == "quick" else 2}
     if only is not None:
         payload["only"] = only
-    corpus = []
+    corpus, expect = [], []
     cdir = os.path.join(os.path.dirname(BUILD), "corpus", PROP)
     if os.path.isdir(cdir) and only is None:
         for f in sorted(os.listdir(cdir)):
             if f.endswith(".json"):
-                corpus.append(json.load(open(os.path.join(cdir, f)))["case"])
+                d = json.load(open(os.path.join(cdir, f)))
+                corpus.append(d["case"])
+                if d.get("expect_sig"):
+                    expect.append((f, d.get("theorem"), d["expect_sig"]))
     if corpus:
+        # the corpus (incl. the witnesses of the _refuted theorems) runs first, one program per file
         outc = run_impl("c12.py", {"seed": seed, "only": corpus})
+        sigs = set(f["sig"] for f in outc["fails"])
+        gone = [f"{f} ({thm}): expected failure '{sig}' no longer reproduces on the implementation"
+                for f, thm, sig in expect if sig not in sigs]
+        ck.cov["witnesses_replayed"] = len(expect)
+        ck.cov["witnesses_not_reproduced"] = gone
     else:
         outc = {"cases": [], "fails": [], "strata": {}}
     out = run_impl("c12.py", payload)
